@@ -6,6 +6,7 @@ Proofs/Faults (destinations) and Proofs/FaultsRead (sources).
 import SfntV.Proofs.Faults
 import SfntV.Proofs.FaultsRead
 import SfntV.Proofs.FaultsParser
+import SfntV.Proofs.FaultsAccept
 
 namespace SfntV.Props.C18
 open SfntV SfntV.Header SfntV.Faults
@@ -174,6 +175,50 @@ theorem C18_limited (f : Bytes) (k : Nat) (ra : ReaderAt) (hl : Limited f k ra)
 theorem C18_sources (f : Bytes) (k : Nat) :
     Limited f k (memReader (f.take k)) ∧ Limited f k (faultReader f k) :=
   ⟨limited_trunc f k, limited_fault f k⟩
+
+/-! ## acceptance of the complete file, and the dichotomy in `k` -/
+
+/-- The model of `header.Read` against an abstract `io.ReaderAt`, used for all fault theorems
+here, is on an in-memory file the same function as C03's model of `header.Read`. -/
+theorem C18_model_agrees (m : Nat) (f : Bytes) : readR m (memReader f) = Header.read m f :=
+  readR_mem m f
+
+/-- The unfaulted source is accepted: for every supported scaler type and every table set in the
+domain of `C03_read_write` (printable names, at most 280 tables), `header.Read` on the complete
+written file succeeds with one record per body, each pointing at exactly the bytes written. -/
+theorem C18_accepts_complete (sc : Nat) (hsc : scalerOk sc = true) (ts : List Entry) (h : Dom ts)
+    (hn : (named ts).length ≤ 280) (hpr : ∀ t ∈ named ts, ∀ b ∈ t.1, 0x20 ≤ b ∧ b ≤ 0x7e)
+    (w : Written) (hw : write sc ts = .ok w) :
+    ∃ recs, readR 280 (memReader w.bytes) = .ok (sc, recs) ∧ recs.length = w.bodies.length ∧
+      ∀ r ∈ recs, ∃ body, (r.1, body) ∈ w.bodies ∧ (w.bytes.drop r.2.1).take r.2.2 = body := by
+  rw [readR_mem]
+  exact read_write sc hsc ts h.keys_nodup h.size_ok h.count_ok hn hpr w hw
+
+/-- The dichotomy in the fault point `k`, for every written file of that domain: there is one
+result `(sc, recs)` — that of the unfaulted read — such that for every `k`
+* if `k` lies before the end of some table, `header.Read` fails on the file cut at `k` and on the
+  `ReaderAt` failing at `k`;
+* if `k ≥ |file|`, both succeed with exactly that result.
+(Between the end of the last allocation and the end of the file — padding — nothing is claimed:
+the code accepts, see the diagnostic stream.) -/
+theorem C18_dichotomy (sc : Nat) (hsc : scalerOk sc = true) (ts : List Entry) (h : Dom ts)
+    (hn : (named ts).length ≤ 280) (hpr : ∀ t ∈ named ts, ∀ b ∈ t.1, 0x20 ≤ b ∧ b ≤ 0x7e)
+    (w : Written) (hw : write sc ts = .ok w) :
+    ∃ recs, readR 280 (memReader w.bytes) = .ok (sc, recs) ∧ ∀ k,
+      ((∃ sp ∈ tableSpans w, k < sp.1 + sp.2) →
+        (readR 280 (memReader (w.bytes.take k))).isOk = false ∧
+        (readR 280 (faultReader w.bytes k)).isOk = false) ∧
+      (w.bytes.length ≤ k →
+        readR 280 (memReader (w.bytes.take k)) = .ok (sc, recs) ∧
+        readR 280 (faultReader w.bytes k) = .ok (sc, recs)) := by
+  obtain ⟨recs, hr, _⟩ := C18_accepts_complete sc hsc ts h hn hpr w hw
+  refine ⟨recs, hr, fun k => ⟨?_, ?_⟩⟩
+  · rintro ⟨sp, hsp, hk⟩
+    exact ⟨written_reject sc ts h.keys_nodup h.size_ok h.count_ok w hw k _ (limited_trunc w.bytes k) sp hsp hk 280,
+      written_reject sc ts h.keys_nodup h.size_ok h.count_ok w hw k _ (limited_fault w.bytes k) sp hsp hk 280⟩
+  · intro hk
+    exact ⟨by rw [List.take_of_length_le hk]; exact hr,
+      readR_mono (faultReader_ge w.bytes k hk) 280 _ hr⟩
 
 /-! ## the buffered parser (parser/parser.go) on a source that ends at offset `k` -/
 
